@@ -16,6 +16,7 @@ RULE = ('BFS over pre-reset update() histories of the real online monitor (discr
         'over the event alphabet plus constant probes longer than the largest bound, plus - for two variables - update() calls that leave one variable out; dense: fixed probe signals in two chunkings) is fed; every '
         'post-reset output and sampling_violation_counter value must equal what a freshly parsed (and pastified) monitor returns for the same inputs; '
         'the initial state is included (reset() before the first update); a (state, probe) pair is one checked obligation; '
+        'interface-aware layer: the same for monitors under the non-standard semantics with input/output declarations (predicates that contribute +-inf or 0 drive unbounded operators to their absorbing values); '
         'faulty layer: pre-reset histories over an alphabet that contains samples outside the domain of sqrt/ln/log/division, so that they contain update() calls '
         'the monitor rejects half-way through its walk - reset() after such a history must still give the behaviour of a fresh monitor')
 ASSUMPTIONS = ['post-reset behaviour is compared on a bounded family of input sequences, not on all futures',
@@ -131,6 +132,9 @@ def shards(tier):
     cc = ct_cases(tier)
     for i in range(0, len(cc), 2):
         out.append({'ct': [(F.to_json(f), p) for f, p in cc[i:i + 2]]})
+    ic = ia_cases(tier)
+    for i in range(0, len(ic), 2):
+        out.append({'dt_ia': [(F.to_json(f), k) for f, k in ic[i:i + 2]]})
     fc = fault_cases(tier)
     for i in range(0, len(fc), 2):
         out.append({'faulty': [F.to_json(f) for f in fc[i:i + 2]]})
@@ -139,11 +143,30 @@ def shards(tier):
     return out
 
 
-def dt_explore(res, mod, f, pastify, subs, top, tier, faulty=False):
+IA_VALUES = ((-1.0, 0.0, 1.0), (0.0, 1.0))
+IA_CONFIGS = (('output_robustness', {'x': 'input', 'y': 'output'}), ('input_robustness', {'x': 'output', 'y': 'input'}),
+              ('input_vacuity', {'x': 'output', 'y': 'output'}), ('output_robustness', {'x': 'input', 'y': 'input'}))
+
+
+def ia_cases(tier):
+    """monitors under an interface-aware semantics: predicates that contribute +-inf (or 0) drive unbounded operators to absorbing values"""
+    GT, LT, px, py = ('pred', '>', F.X, F.C0), ('pred', '<', F.Y, F.C1), F.PX, F.PY
+    fs = [('once', None, px), ('historically', None, GT), ('since', None, px, LT), ('and', ('once', None, GT), py), ('or', ('historically', None, py), ('prev', px)),
+          ('once', (0, 2), GT), ('historically', (1, 2), px), ('since', (0, 1), GT, py), ('rise', px), ('implies', ('once', None, LT), ('historically', None, px)),
+          ('once', None, ('historically', None, px)), ('and', ('once', None, ('pred', '>', ('+', F.X, F.Y), F.C1)), ('once', None, px))]
+    if tier == 'quick':
+        fs = fs[::2] + fs[1:4:2]
+    return [(f, k % len(IA_CONFIGS)) for k, f in enumerate(fs)] + [(f, (k + 1) % len(IA_CONFIGS)) for k, f in enumerate(fs[:6])]
+
+
+def dt_explore(res, mod, f, pastify, subs, top, tier, faulty=False, ia=None):
     quick = tier == 'quick'
     delay = int(refsem.horizon(f)) if pastify else 0
     if faulty:
         m = FaultyResetModel(f, offline=False)
+    elif ia is not None:
+        sem, io = IA_CONFIGS[ia]
+        m = ResetModel(f, IA_VALUES, build_kw={'semantics': sem, 'io_types': {v: t for v, t in io.items() if v in F.fvars(f)}}, offline=False)
     else:
         m = ResetModel(f, (F.V3, F.V2), text=top, pastify=pastify, delay=delay, subspecs=subs, offline=False)
     probes = m.probes()
@@ -166,6 +189,8 @@ def dt_explore(res, mod, f, pastify, subs, top, tier, faulty=False):
                     'history': [list(e) for e in hist], 'probe': [list(e) for e in q]}
             if faulty:
                 case['faulty'] = True
+            if ia is not None:
+                case['ia'] = ia
             if r[0] != 'ok':
                 res.violation(mod, case, 'reset() after %d updates raised %s' % (len(hist), r[1]))
                 res.outcomes['reset raised'] += 1
@@ -396,6 +421,11 @@ def run_shard(shard, tier, res):
         f = F.from_json(fj)
         m, st = dt_explore(res, mod, f, pastify, tuple(subs), top, tier)
         res.sample({'spec': m.text, 'subspecs': list(subs), 'pastify': pastify, 'pre_reset_states': st.states, 'probes': len(m.probes())}, 1)
+    for fj, k in shard.get('dt_ia', []):
+        f = F.from_json(fj)
+        m, st = dt_explore(res, mod, f, False, (), None, tier, ia=k)
+        res.flags['interface_aware_monitors'] += 1
+        res.sample({'spec': m.text, 'semantics': IA_CONFIGS[k][0], 'io': IA_CONFIGS[k][1], 'pre_reset_states': st.states}, 1)
     for fj in shard.get('faulty', []):
         f = F.from_json(fj)
         m, st = dt_explore(res, mod, f, False, (), None, tier, faulty=True)
@@ -416,6 +446,9 @@ def replay(case):
         delay = int(refsem.horizon(f)) if case['pastify'] else 0
         if case.get('faulty'):
             m = FaultyResetModel(f, offline=False)
+        elif case.get('ia') is not None:
+            sem, io = IA_CONFIGS[case['ia']]
+            m = ResetModel(f, IA_VALUES, build_kw={'semantics': sem, 'io_types': {v: t for v, t in io.items() if v in F.fvars(f)}}, offline=False)
         else:
             m = ResetModel(f, (F.V3, F.V2), text=case['spec'], variables=case['vars'], pastify=case['pastify'], delay=delay,
                            subspecs=tuple(case.get('subspecs', ())), offline=False)
